@@ -247,7 +247,19 @@ func visitInstr(fr *frame, instr ssa.Instruction) continuation {
 					if isAbort(r) {
 						panic(r)
 					}
-					panic(pathAbort{kind: "unsupported", msg: fmt.Sprintf("panic inside goroutine: %v", panicText(r))})
+					txt := panicText(r)
+					if tp, ok := r.(targetPanic); ok {
+						if it, ok := tp.v.(iface); ok && it.t != nil {
+							if p, ok := it.v.(*value); ok && p != nil {
+								if st, ok := (*p).(structure); ok && len(st) > 0 {
+									if msg, ok := st[0].(string); ok {
+										txt = "panic: " + msg
+									}
+								}
+							}
+						}
+					}
+					panic(pathAbort{kind: "unsupported", msg: fmt.Sprintf("panic inside goroutine: %v", txt)})
 				}
 			}()
 			call(fr.i, nil, instr.Pos(), fn, args)
